@@ -46,8 +46,8 @@ PROP = dict(
                "last on top; resume after the instruction with the host's value on top). Tied to /repo by scheduler trace "
                "validation, a host-call correspondence and direct checks of each statement on the implementation.",
     level_note="The model is validated by trace correspondence, not derived from vm.rs. Defect D44 (zero-parameter host "
-               "function used as a first-class value lost the host's value; fixed by acfc8f4) is probed on every run and its "
-               "shape enters the generator once the implementation handles it.",
+               "function used as a first-class value lost the host's value; fixed by acfc8f4) is a hard regression check and its shape "
+               "is always in the main stream.",
     technique="Lean 4 theorems (loop invariants) over a hand-written scheduler model and stack machine + trace validation and direct property checks against the real runtime",
     timeout=3000,
 )
